@@ -291,9 +291,11 @@ namespace Pistache::Http
             if (!match_until(' ', cursor))
                 return State::Again;
 
+            // strtol needs a terminated string: the token is followed by arbitrary data
+            const std::string codeText = codeToken.text();
             char* end;
-            auto code = strtol(codeToken.rawText(), &end, 10);
-            if (*end != ' ')
+            auto code = strtol(codeText.c_str(), &end, 10);
+            if (end == codeText.c_str() || end != codeText.c_str() + codeText.size())
                 raise("Failed to parse return code");
             response->code_ = static_cast<Http::Code>(code);
 
@@ -460,10 +462,11 @@ namespace Pistache::Http
                     if (!cursor.advance(1))
                         return Incomplete;
 
+                // strtol needs a terminated string: the size line is followed by arbitrary data
+                const std::string raw = chunkSize.text();
                 char* end;
-                const char* raw = chunkSize.rawText();
-                auto sz         = std::strtol(raw, &end, 16);
-                if (*end != '\r' || sz < 0)
+                auto sz = std::strtol(raw.c_str(), &end, 16);
+                if (end == raw.c_str() || end != raw.c_str() + raw.size() || sz < 0)
                     throw std::runtime_error("Invalid chunk size");
 
                 // CRLF
